@@ -280,6 +280,15 @@ func (e *arElem) collect(helpers map[int]int, byName map[string]*arRef, order *[
 				if val == "" {
 					val = v
 				} else if val != v {
+					if val != "none" && v != "none" {
+						val = "mixed" // differently typed alternatives under one alias
+					} else {
+						val = "none"
+					}
+				}
+			}
+			for _, s := range e.Sub {
+				if s.K != "sym" && s.K != "nt" {
 					val = "none"
 				}
 			}
